@@ -85,7 +85,7 @@ def run(tier):
     # these very strings as its own markers, see C02)
     tied = [s for s in gen.tied_completions(400, random.Random(common.seed()))
             if "[H]" not in s.replace("[H][H]", "") and "[O]" not in s.replace("[O-]", "")]
-    base = FIXED + tied[: 40 if tier == "quick" else 400] + corpus.sample(pool, 70 if tier == "quick" else 900, rng)
+    base = FIXED + tied + corpus.sample(pool, 70 if tier == "quick" else 900, rng)
     seen = set()
     base = [s for s in base if oracle.reaction_facts(s)["parses"] and not (s in seen or seen.add(s))]
     modes = ["canonical", "perm", "random", "kekule", "mapped", "random"] if tier == "quick" else \
